@@ -1,14 +1,22 @@
 pub mod c02;
+pub mod c06;
+pub mod c10;
 pub mod c14;
+pub mod c15;
+pub mod c19;
 
 use crate::run::PartDyn;
 
 pub fn parts_for(property: &str) -> Option<Vec<Box<dyn PartDyn>>> {
     Some(match property {
         "C02" => c02::parts(),
+        "C06" => c06::parts(),
+        "C10" => c10::parts(),
         "C14" => c14::parts(),
+        "C15" => c15::parts(),
+        "C19" => c19::parts(),
         _ => return None,
     })
 }
 
-pub const ALL: &[&str] = &["C02", "C14"];
+pub const ALL: &[&str] = &["C02", "C06", "C10", "C14", "C15", "C19"];
